@@ -72,6 +72,10 @@ def systematic():
     out.append({"origin": "replica-serves-during-store-outage", "steps": [L("alice", "p1"), SY] + down + [DO, L("alice", "p1"), L("alice", "p2"), DR] + up + [L("alice", "p1")]})
     out.append({"origin": "evicted-hash-leaves-replica", "steps": [L("alice", "p1"), SY, {"op": "change", "user": "alice", "pw": "p2"}, L("alice", "p1"), SY] + down +
                 [DO, L("alice", "p1"), L("alice", "p2"), DR, L("alice", "p1")] + up + [L("alice", "p2"), SY] + down + [DO, L("alice", "p2"), L("alice", "p1")]})
+    # the replica still has what the primary no longer has (no synchronisation since the rejection): with the primary
+    # answering, the primary's "no such record" is the answer
+    out.append({"origin": "evicted-hash-still-in-replica", "steps": [L("alice", "p1"), L("bob", "p1"), SY, {"op": "change", "user": "alice", "pw": "p2"}, L("alice", "p1")] + down +
+                [L("alice", "p1"), L("bob", "p1"), L("alice", "p2")] + up + [L("alice", "p2")] + down + [L("alice", "p2"), L("alice", "p1")]})
     out.append({"origin": "replica-ages-too", "steps": [L("bob", "p1"), SY, {"op": "halflife", "user": "bob"}, {"op": "halflife", "user": "bob"}] + down + [DO, L("bob", "p1"), DR, L("bob", "p1")]})
     for how in ("swapsubject", "alterhash", "extendcolumn", "resign"):
         out.append({"origin": "tamper-" + how, "steps": [L("alice", "p1"), L("bob", "p1"), {"op": "expire", "user": "alice"} if how == "extendcolumn" else L("bob", "p1"),
